@@ -5,6 +5,7 @@ Reuses the pigeonhole lemma `DS.piter_returns` (partial injections into `1..n`).
 -/
 import DSymVerif.Model.Delaney3d
 import DSymVerif.Proofs.DSetOrbit
+import Mathlib.Data.Nat.Find
 
 namespace DSymVerif.D3
 open DSymVerif DSymVerif.DS
@@ -181,5 +182,26 @@ theorem degreeLoop_spec {get : Nat → Int → Outcome (Option Nat)} {n : Nat} {
         cases hnext
         exact hy0 rfl
       exact degreeLoop_spec h hn k hk hmin fuel (i + 1) y (by omega) (by omega) hnext
+
+/-- the model of `degree` on a permutation action: returns within `n` rounds the least `k ≥ 1`
+    with `0·w^k = 0` -/
+theorem degreeOf_spec (get : Nat → Int → Outcome (Option Nat)) (n : Nat) (w : List Int)
+    (hn : 0 < n) (h : ActsOn get n w) :
+    ∃ k, degreeOf get n w = .ok k ∧ 1 ≤ k ∧ k ≤ n ∧ iterTrace get w k 0 = .ok 0 ∧
+      ∀ j, 1 ≤ j → j < k → iterTrace get w j 0 ≠ .ok 0 := by
+  classical
+  have hex : ∃ t, 1 ≤ t ∧ iterTrace get w t 0 = .ok 0 := by
+    obtain ⟨t, h1, _, h3⟩ := iterTrace_returns h hn
+    exact ⟨t, h1, h3⟩
+  obtain ⟨t, ht1, htn, ht⟩ := iterTrace_returns h hn
+  refine ⟨Nat.find hex, ?_, (Nat.find_spec hex).1, ?_, (Nat.find_spec hex).2, ?_⟩
+  · unfold degreeOf
+    exact degreeLoop_spec h hn (Nat.find hex) (Nat.find_spec hex).2
+      (fun j hj1 hjk hj => Nat.find_min hex hjk ⟨hj1, hj⟩) n 0 0
+      (by have := (Nat.find_spec hex).1; omega)
+      (by have := Nat.find_min' hex ⟨ht1, ht⟩; omega) rfl
+  · have := Nat.find_min' hex ⟨ht1, ht⟩; omega
+  · intro j hj1 hjk hj
+    exact Nat.find_min hex hjk ⟨hj1, hj⟩
 
 end DSymVerif.D3
